@@ -217,7 +217,8 @@ func IDString(tl byte, rest []byte) (s string, consumed int, defined bool, err e
 			r = append(r, rune(b))
 		}
 		// a length of 1 is reserved for 8-bit ASCII; "unicode" bytes above 0x7f have no defined meaning
-		defined = !(typ == 3 && n == 1)
+		// ("unicode" is read with the same decoder, so the same holds for it)
+		defined = n != 1
 		if typ == 0 {
 			for _, b := range rest[:n] {
 				if b > 0x7f {
